@@ -455,6 +455,40 @@ class Prov:
         return self.classify(e.value, fi, d, env)
 
     # ------------------------------------------------- dict key provenance
+    def _dict_keys_local(self, expr, name, fi, d):
+        out = set()
+        for kind, val, idx in self._assignments(fi, name):
+            if kind == "assign" and idx is None:
+                out |= self.dict_keys(val, fi, d)
+        for x in walk_own(fi.node):
+            # name[k] = v
+            if isinstance(x, ast.Assign):
+                for t in x.targets:
+                    if isinstance(t, ast.Subscript) and isinstance(t.value, ast.Name) and t.value.id == name:
+                        out |= self.classify(t.slice, fi, d)
+            if isinstance(x, ast.Call) and call_name(x) == "update" and isinstance(x.func, ast.Attribute) \
+                    and isinstance(x.func.value, ast.Name) and x.func.value.id == name:
+                for a in x.args:
+                    out |= self.dict_keys(a, fi, d)
+                for k in x.keywords:
+                    out |= self.dict_keys(k.value, fi, d) if k.arg is None else frozenset({"LIT"})
+        if _is_param(name, fi):
+            a = fi.node.args
+            if d >= self.max_depth:
+                out.add(f"PARAM:{fi.qualname}.{name}")
+            elif a.kwarg and a.kwarg.arg == name:
+                # **kwargs: keys are the keyword names at call sites
+                for cf, c in self.callsites().get(fi.name, []):
+                    for k in c.keywords:
+                        if k.arg is None:
+                            out |= self.dict_keys(k.value, cf, d + 1)
+                        elif k.arg not in [p.arg for p in [*a.args, *a.kwonlyargs]]:
+                            out.add("LIT")
+                out.add("LIT")
+            else:
+                out.add(f"PARAM:{fi.qualname}.{name}")
+        return frozenset(out or {"LIT"})
+
     def dict_keys(self, expr: ast.AST, fi: FuncInfo, d: int = 0) -> frozenset:
         """Provenance of the *keys* of a dict-valued expression."""
         if isinstance(expr, ast.Dict):
@@ -493,37 +527,15 @@ class Prov:
         if isinstance(expr, ast.Name) and _is_local(expr.id, fi):
             out = set()
             name = expr.id
-            for kind, val, idx in self._assignments(fi, name):
-                if kind == "assign" and idx is None:
-                    out |= self.dict_keys(val, fi, d)
-            for x in walk_own(fi.node):
-                # name[k] = v
-                if isinstance(x, ast.Assign):
-                    for t in x.targets:
-                        if isinstance(t, ast.Subscript) and isinstance(t.value, ast.Name) and t.value.id == name:
-                            out |= self.classify(t.slice, fi, d)
-                if isinstance(x, ast.Call) and call_name(x) == "update" and isinstance(x.func, ast.Attribute) \
-                        and isinstance(x.func.value, ast.Name) and x.func.value.id == name:
-                    for a in x.args:
-                        out |= self.dict_keys(a, fi, d)
-                    for k in x.keywords:
-                        out |= self.dict_keys(k.value, fi, d) if k.arg is None else frozenset({"LIT"})
-            if _is_param(name, fi):
-                a = fi.node.args
-                if d >= self.max_depth:
-                    out.add(f"PARAM:{fi.qualname}.{name}")
-                elif a.kwarg and a.kwarg.arg == name:
-                    # **kwargs: keys are the keyword names at call sites
-                    for cf, c in self.callsites().get(fi.name, []):
-                        for k in c.keywords:
-                            if k.arg is None:
-                                out |= self.dict_keys(k.value, cf, d + 1)
-                            elif k.arg not in [p.arg for p in [*a.args, *a.kwonlyargs]]:
-                                out.add("LIT")
-                    out.add("LIT")
-                else:
-                    out.add(f"PARAM:{fi.qualname}.{name}")
-            return frozenset(out or {"LIT"})
+            busy = self.__dict__.setdefault("_dk_busy", set())
+            bkey = (id(fi.node), name)
+            if bkey in busy:
+                return frozenset()  # cyclic definition (x = f(x)): the other definitions contribute the keys
+            busy.add(bkey)
+            try:
+                return self._dict_keys_local(expr, name, fi, d)
+            finally:
+                busy.discard(bkey)
         if isinstance(expr, ast.IfExp):
             return self.dict_keys(expr.body, fi, d) | self.dict_keys(expr.orelse, fi, d)
         if isinstance(expr, ast.BoolOp):
